@@ -89,6 +89,14 @@ def secant_envs(rnd, t, base_envs):
 
 def check_values(rnd, before, after, n_env=8):
     """C01 / C02 oracle on two tuple-form trees. Returns None or (class, detail)."""
+    P.ILL[0] = has_float(before) or has_float(after)
+    try:
+        return _check_values(rnd, before, after, n_env)
+    finally:
+        P.ILL[0] = False
+
+
+def _check_values(rnd, before, after, n_env=8):
     vs = P.sx_vars(before) | P.sx_vars(after)
     envs = P.assignments(rnd, vs, n_env)
     if before[0] == "eq":
